@@ -336,7 +336,7 @@ impl Parser {
             let fields = ClassBody::get_members(&body_node).to_err_vec()?;
 
             let class_type = ClassType::new_callable(
-                Arc::new(ident.name().to_owned()),
+                Arc::new(input.user_data().internal_class_name(ident.name())),
                 fields,
                 input.user_data().bytecode_path(),
             );
